@@ -371,7 +371,20 @@ func genC18(t *rapid.T) C18Case {
 		tail.WriteString(DefaultJSON.Object(t, 2))
 		tail.WriteByte(0)
 	}
-	switch rapid.IntRange(0, 4).Draw(t, "payload") {
+	pk := rapid.IntRange(0, 4).Draw(t, "payload")
+	huge := false
+	if rapid.IntRange(0, 39).Draw(t, "huge") == 17 {
+		// a long upgraded stream: megabytes of raw data after the last frame read
+		n := rapid.SampledFrom([]int{1<<20 + 4097, 2 << 20, 3<<20 + 1}).Draw(t, "hugelen")
+		buf := make([]byte, n)
+		for i := range buf {
+			buf[i] = byte(i*31 + i>>11)
+		}
+		tail.Write(buf)
+		huge = true
+		pk = 0
+	}
+	switch pk {
 	case 0:
 	case 1:
 		tail.Write(rapid.SliceOfN(rapid.Byte(), 1, 40).Draw(t, "small"))
@@ -397,6 +410,9 @@ func genC18(t *rapid.T) C18Case {
 		c.Cuts = []int{rapid.SampledFrom([]int{4095, 4096, 4097, 100}).Draw(t, "cutn")}
 	default:
 		c.Cuts = rapid.SliceOfN(rapid.IntRange(1, 5000), 1, 5).Draw(t, "cuts")
+	}
+	if huge && len(c.Cuts) > 0 && c.Cuts[0] < 4096 {
+		c.Cuts = []int{65536}
 	}
 	n := rapid.IntRange(1, 12).Draw(t, "nops")
 	for i := 0; i < n; i++ {
@@ -430,6 +446,9 @@ func checkC18(c C18Case, st *Stats) error {
 	labels := []string{"side:" + c.Side, "transport:" + c.Transport}
 	if coalesced {
 		labels = append(labels, "frame+following-bytes-in-one-segment")
+	}
+	if len(c.Tail) > 1<<20 {
+		labels = append(labels, "payload>1MiB")
 	}
 	if mixed {
 		labels = append(labels, "raw-read-after-frame-read")
